@@ -31,7 +31,7 @@ ASSUMPTIONS = ["probe battery is finite (listed in vf/props/c16.py)",
 REPORT_COUNTERS = ["histories", "operations", "probes_compared", "objects_probed_after_5plus_later_ops", "op:redefine",
                    "op:redefine_many", "op:remove", "op:extend_override", "op:extend_typechecker", "op:extend_nochange",
                    "op:create", "op:create_version", "op:extend_version", "op:create_default_types", "op:validator_types", "op:checks",
-                   "op:cls_checks", "op:formats_subset"]
+                   "op:cls_checks", "op:formats_subset", "op:validator_twins", "untouched_twins_probed_later"]
 
 TYPE_NAMES = ["array", "boolean", "integer", "null", "number", "object", "string", "any", "thing", "zz-unknown"]
 INSTANCES = [None, True, False, 0, 1, 1.0, 1.5, "", "s", [], [1], {}, {"a": 1}]
@@ -64,7 +64,7 @@ def shards(tier):
 def floors(tier):
     f = {"histories": 400, "operations": 5000, "probes_compared": 30000, "objects_probed_after_5plus_later_ops": 1000}
     for op in ("redefine", "redefine_many", "remove", "extend_override", "extend_typechecker", "extend_nochange", "create",
-               "create_version", "extend_version", "create_default_types", "validator_types", "checks", "cls_checks", "formats_subset"):
+               "create_version", "extend_version", "create_default_types", "validator_types", "checks", "cls_checks", "formats_subset", "validator_twins"):
         f["op:" + op] = 150
     return f
 
@@ -229,6 +229,7 @@ def fmt_fn(accept):
 class State:
     def __init__(self):
         self.objs = []       # dict(kind, obj, vec, born, label)
+        self.twins = []      # (record of the probed twin, the untouched twin, probe instances, step)
         self.n = 0
 
     def add(self, kind, obj, label, extra=None):
@@ -262,7 +263,7 @@ class State:
 def gen_ops(rng):
     kinds = ["redefine", "redefine_many", "remove", "extend_override", "extend_typechecker", "extend_nochange", "create",
              "create_version", "extend_version", "create_default_types", "validator_types", "validator_types", "checks", "cls_checks",
-             "formats_subset"]
+             "formats_subset", "validator_twins"]
     ops = []
     for _ in range(rng.randrange(5, 26)):
         ops.append({"op": rng.choice(kinds), "r": rng.randrange(10 ** 6)})
@@ -392,7 +393,8 @@ def run_history(rec, ops, base_draft):
                     kwargs = dict(meta_schema=meta, validators=mine, type_checker=T["obj"], id_of=C["obj"].ID_OF)
                     if kind == "create_version":
                         idk = "id" if "id" in meta else "$id"
-                        meta[idk] = "http://vf.example/meta/%d/%d" % (op["r"], n)
+                        meta[idk] = ("http://vf.example/meta/future-%d" % (op["r"] % 3)) if rng.random() < 0.6 else \
+                            "http://vf.example/meta/%d/%d" % (op["r"], n)
                         kwargs["version"] = "vf%d_%d" % (op["r"], n)
                     new = validators.create(**kwargs)
                     new.VALIDATORS["vf-added-after-create"] = kw_fn("late")    # the new class's own table may be edited freely
@@ -435,6 +437,23 @@ def run_history(rec, ops, base_draft):
                                 return
                         except TypeError:
                             pass
+                elif kind == "validator_twins":
+                    # two identical validator objects; one is probed now, the other is left completely alone and probed
+                    # at the end of the history: it must behave as its twin did when both were created (anything an
+                    # object captures lazily would be captured after the later derivations)
+                    C = st.pick(rng, "C")
+                    schema = {"properties": {"m": {"$ref": "http://vf.example/meta/future-%d" % rng.randrange(3)},
+                                             "n": {"$ref": "http://vf.example/meta/future-%d#/properties/title" % rng.randrange(3)},
+                                             "d": {"$ref": impl.META_ID[rng.choice(impl.DRAFTS)]}},
+                              "type": rng.choice(["object", ["object", "string"]])}
+                    try:
+                        Va, Vb = C["obj"](schema), C["obj"](schema)
+                    except Exception:
+                        Va = None
+                    if Va is not None:
+                        insts = [{"m": {"type": 5}}, {"n": 5}, {"d": {"type": 5}}, {"m": {"title": 1}, "n": "t"}, {"d": {"minLength": -1}}, {}, "s", 1]
+                        arec = st.add("V", Va, "%s(schema with references to ids registered later)" % C["label"], extra=insts)
+                        st.twins.append((arec, Vb, insts, n))
                 elif kind == "checks":
                     F = st.pick(rng, "F")
                     name = rng.choice(["vf-one", "vf-two", "date", "ipv4", "new-%d" % n])
@@ -472,6 +491,20 @@ def run_history(rec, ops, base_draft):
                 rec.violation("original-disturbed", dict(case, step=n, object=r["label"], operation=kind),
                               "after step %d (%s) the earlier object %s behaves differently: %s" % (n, kind, r["label"], what))
                 return
+    _probe_untouched_twins(rec, st, case)
+
+
+def _probe_untouched_twins(rec, st, case):
+    for arec, Vb, insts, born in st.twins:
+        rec.count("untouched_twins_probed_later")
+        with warnings.catch_warnings():
+            warnings.simplefilter("ignore")
+            vec = probe_validator(Vb, insts)
+        if vec != arec["vec"]:
+            rec.violation("untouched-twin-differs", dict(case, step=born, object=arec["label"]),
+                          "a validator object created at step %d and not used until the end of the history behaves differently from what its "
+                          "identical twin did at creation: %s" % (born, _diff(vec, arec["vec"])))
+            return
 
 
 def _diff(a, b):
